@@ -127,6 +127,14 @@ def r06_1(ctx, m, info):
             if d_ is None:
                 raise AnalysisError("R06.1", dec.where(inner), f"cannot find the definition of the enumerated list `{srt.id}`")
             srt = d_
+            # sorted in place after it was bound: `members = list(...); [if len(members) > 1:] members.sort()`
+            name_ = it.args[0].id
+            sorts_ = [c_ for c_ in walk_own(dec.node) if isinstance(c_, ast.Call) and isinstance(c_.func, ast.Attribute) and c_.func.attr == "sort" and norm(c_.func.value) == name_ and dec.before(c_, inner)]
+            if sorts_ and not (isinstance(srt, ast.Call) and norm(srt.func) == "sorted"):
+                if all(not c_.args and not c_.keywords for c_ in sorts_) and isinstance(srt, ast.Call) and norm(srt.func) in ("list", "sorted") and len(srt.args) == 1:
+                    srt = ast.Call(func=ast.Name(id="sorted", ctx=ast.Load()), args=list(srt.args), keywords=[])
+                else:
+                    raise AnalysisError("R06.1", dec.where(inner), f"the enumerated list `{name_}` is sorted in place in a way this rule does not read")
     ok_sorted = ok_enum and isinstance(srt, ast.Call) and isinstance(srt.func, ast.Name) and srt.func.id == "sorted" and len(srt.args) == 1 and not srt.keywords
     ctx.check(bool(ok_sorted), "R06.1", dec.where(inner), "bubble nodes are enumerated in sorted() order of their ids (no key=, no reverse=: lexicographic)", key_of(dec, f"bubble-order:{norm(it)}"), iter=norm(it))
     if ok_enum and isinstance(inner.target, ast.Tuple) and len(inner.target.elts) == 2:
@@ -432,6 +440,18 @@ def r06_5(ctx, m):
             ok = any(norm(a) in comp for a in [m.arg_of_param.get(m.dec.params[1])] if a is not None)
             wr = [st for st in m.success_body if isinstance(st, ast.Expr) and "write_gfa" in norm(st) and m.success_body.index(st) > m.success_body.index(nl)]
             ok = ok and bool(wr)
+    if not ok:
+        # the stores may sit deeper (inside a `with` around the CSV handle, in a helper): positive evidence of a violation is
+        # a store of one of the tags under a condition of its own, or only one of the two tags stored
+        deep = [st for st in walk_stmts(m.success_body) if isinstance(st, ast.Assign) and isinstance(st.targets[0], ast.Subscript) and ".tags" in norm(st.targets[0]) and const_value(st.targets[0].slice) in ("BO", "NO")]
+        kinds_ = {const_value(st.targets[0].slice) for st in deep}
+        from .c09 import guards_of as _g
+
+        conditional = [st for st in deep if len(_g(run.node, st)) > len(_g(run.node, m.success_body[0]))]
+        if deep and kinds_ == {"BO", "NO"} and not conditional and not any(isinstance(n_, ast.For) and any(x is deep[0] for x in n_.body) for n_ in node_loops):
+            raise AnalysisError("R06.5", run.where(deep[0]), "the BO / NO tags are stored, unconditionally, but not directly in the node loop of the success branch (nested block or helper): the order relative to the write is not read")
+        if not deep and any(isinstance(c_, ast.Call) and ctx.repo.resolve_call(run, c_) is not None and ctx.repo.resolve_call(run, c_).module is run.module for st in m.success_body for c_ in ast.walk(st)):
+            raise AnalysisError("R06.5", run.where(m.success_if), "no BO / NO store in the success branch itself (a helper of the module is called there): not traced")
     ctx.check(ok, "R06.5", run.where(m.success_if), "both tags are overwritten, unconditionally, for every node of the component before the (BO, NO)-ordered write", key_of(run, "tags-overwritten-before-write"))
 
 
@@ -534,6 +554,8 @@ def r06_7(ctx, m):
         incs = [st for st in walk_own(cs.node) if isinstance(st, ast.AugAssign) and isinstance(st.op, ast.Add) and const_value(st.value) == 1 and "tags['SN'][1]" in _resolve(cs, st.target)]
         loops = [l for l in cs.node.body if isinstance(l, ast.For)]
         ok = len(incs) == 1 and bool(loops) and norm(loops[0].iter) in cs.params
+        if not ok and (not loops or len(loops) > 1 or any(isinstance(x, ast.Try) for x in ast.walk(cs.node)) or (not incs and norm(loops[0].iter) in cs.params)):
+            raise AnalysisError("R06.7", cs.where(), "cannot read how the SN values of a component are counted (no single counting loop with one increment)")
         ctx.check(ok, "R06.7", cs.where(), "the vote counts every node of the component once under its SN value", key_of(cs, "count-sn"))
 
 
